@@ -86,6 +86,18 @@ pub fn f64_infinity() -> (r: f64) ensures r == INF() { f64::INFINITY }
 #[verifier::external_body]
 pub fn f64_neg_infinity() -> (r: f64) ensures r == NEG_INF() { f64::NEG_INFINITY }
 
+// other f64 associated constants a change to the code might introduce (R2): only their sign class is assumed
+#[verifier::external_body]
+pub fn f64_epsilon() -> (r: f64) ensures fin(r), rv(r) > 0real { f64::EPSILON }
+#[verifier::external_body]
+pub fn f64_max_value() -> (r: f64) ensures fin(r), rv(r) > 0real { f64::MAX }
+#[verifier::external_body]
+pub fn f64_min_value() -> (r: f64) ensures fin(r), rv(r) < 0real { f64::MIN }
+#[verifier::external_body]
+pub fn f64_min_positive() -> (r: f64) ensures fin(r), rv(r) > 0real { f64::MIN_POSITIVE }
+#[verifier::external_body]
+pub fn f64_nan() -> (r: f64) ensures !ord(r) { f64::NAN }
+
 pub uninterp spec fn neg_spec(x: f64) -> f64;
 #[verifier::external_body]
 pub fn f64_neg(x: f64) -> (r: f64) ensures r == neg_spec(x) { -x }
